@@ -2,7 +2,7 @@ CONSTANTS
   SampleMod = 30
   MaxOps = 8
   Scripted = TRUE
-  ExcuseKF = TRUE
+  ExcuseKF = FALSE
   Dump = TRUE
 INIT Init
 NEXT Next
@@ -17,5 +17,6 @@ INVARIANT Inv_C20_ParamsKept
 INVARIANT Inv_C20_Idempotent
 INVARIANT Inv_C20_RenameInert
 INVARIANT Inv_C20_DocInert
+INVARIANT Inv_NoKnownFinding
 INVARIANT Inv_StepsEqFunction
 CHECK_DEADLOCK FALSE
